@@ -2786,8 +2786,9 @@ func (c *compiler) VisitForRangeStmt(s *ast.ForRangeStmt) ast.VisitResult {
 	breakLeave.NewBr(leaveBlock)
 	c.curLoopScope, c.curLeaveBlock, c.curContinueBlock = c.scp, breakLeave, continueBlock
 	c.visitNode(s.Body)
-	c.freeNonPrimitive(loopVar.val, loopVar.typ)
+	// a body that ends in a return statement has already freed the loop variable
 	if c.cbb.Term == nil {
+		c.freeNonPrimitive(loopVar.val, loopVar.typ)
 		c.cbb.NewBr(incrementBlock)
 	}
 
